@@ -336,6 +336,7 @@ theorem neutral_fwd {S : STy} {σ : RTy} {core : List Int} {tp : Int} (c : Ctx p
           by rw [hcap]; exact h.cap⟩
         rw [hcl]
         exact good_push c false d core S σ σ _ _ hd (by intro h; cases h) h.hS (hft d _ σ _ hd h.sub) h.good
+            (by have := sub_len h.sub; omega)
     rcases hex with rfl | ⟨i, rfl, hi⟩
     · exact ⟨σ, hch⟩
     · refine ⟨σ, hch, ?_⟩
@@ -367,6 +368,7 @@ theorem lazybranch_fwd {S : STy} {σ : RTy} {core : List Int} {tp : Int} (c : Ct
   subst ho
   refine ⟨σ, ⟨(s.codepos : Int) :: ([s.textpos] ++ core), tp, by simp [push1, h.tr], ?_, h.vals, h.cap⟩, hn.succ h.sub⟩
   exact good_push c false [s.textpos] core S σ σ _ _ rfl (by intro h; cases h) h.hS ⟨h.sub, rfl, rfl⟩ h.good
+      (by have := sub_len h.sub; omega)
 
 theorem lazybranch_init (ht : s.track = []) (hst : s.stack = []) (hcr : s.cap.crawl = [])
     (hpc : s.codepos = 0) (hcap : CapOk env.len p.capsize s.cap) (hn : Succ a 2 []) :
@@ -390,6 +392,7 @@ theorem setmark_fwd {S : STy} {σ : RTy} {core : List Int} {tp : Int} (c : Ctx p
   refine ⟨k :: σ, ⟨(s.codepos : Int) :: ([] ++ core), tp, by simp [push0, spush, h.tr], ?_, ⟨hv, h.vals⟩, h.cap⟩,
     hn.succ (subTy_cons (Kind.sub_refl _) h.sub)⟩
   refine good_push c false [] core S (k :: σ) σ _ _ ?_ (by intro h; cases h) h.hS ?_ h.good
+      (by have := sub_len h.sub; simp only [List.length_cons] at this ⊢ <;> omega)
   · rcases ho with rfl | rfl <;> rfl
   · rcases hk with ⟨rfl, rfl⟩ | ⟨rfl, rfl⟩ <;> exact ⟨rfl, rfl⟩
 
@@ -405,6 +408,7 @@ theorem setcount_fwd {S : STy} {σ : RTy} {core : List Int} {tp : Int} (c : Ctx 
     refine ⟨.count :: k :: σ, ⟨(s.codepos : Int) :: ([] ++ core), tp, by simp [push0, spush2, h.tr], ?_,
       ⟨trivial, hv, h.vals⟩, h.cap⟩, hn.succ (subTy_cons (Kind.sub_refl _) (subTy_cons (Kind.sub_refl _) h.sub))⟩
     refine good_push c false [] core S (.count :: k :: σ) σ _ _ ?_ (by intro h; cases h) h.hS ?_ h.good
+        (by have := sub_len h.sub; simp only [List.length_cons] at this ⊢ <;> omega)
     · rcases hk with ⟨rfl, _⟩ | ⟨rfl, _⟩ <;> rfl
     · rcases hk with ⟨rfl, rfl⟩ | ⟨rfl, rfl⟩ <;> exact ⟨rfl, rfl⟩
 
@@ -419,6 +423,7 @@ theorem setjump_fwd {S : STy} {σ : RTy} {core : List Int} {tp : Int} (c : Ctx p
     hn.succ (subTy_cons (Kind.sub_refl _) (subTy_cons (Kind.sub_refl _) h.sub))⟩
   exact good_push c false [] core S _ σ _ _ rfl (by intro h; cases h) h.hS
     ⟨rfl, rfl, by unfold crawlLen; omega⟩ h.good
+        (by have := sub_len h.sub; simp only [List.length_cons] at this ⊢ <;> omega)
 
 /-! ### `trackto` and `uncaptureTo` succeed -/
 
@@ -510,7 +515,7 @@ theorem getmark_fwd {S R : STy} {σ : RTy} {core : List Int} {tp : Int} (c : Ctx
   simp only [texttoStack, if_pos (show 0 ≤ v ∧ v ≤ env.len from hv), Except.map]
   refine ⟨ρ, ⟨(s.codepos : Int) :: ([v] ++ core), tp, by simp [textto, push1, h.tr], ?_, hvals, h.cap⟩, hn.succ hρ⟩
   exact good_push c false [v] core S ρ (.pos :: ρ) _ _ rfl (by intro h; cases h) h.hS
-    ⟨⟨.pos, rfl, rfl, hv⟩, rfl⟩ h.good
+    ⟨⟨.pos, rfl, rfl, hv⟩, rfl⟩ h.good (by have := sub_len h.sub; simp only [List.length_cons] at this ⊢ <;> omega)
 
 theorem branchmark_fwd {S R : STy} {K : Kind} {σ : RTy} {core : List Int} {tp : Int} (c : Ctx p bs env s w o)
     (ho : o = .branchmark) (h : FwdH p bs env a s S σ core tp) (hS : S = K :: R) (hK : StackTyping.isMark K = true)
@@ -531,9 +536,10 @@ theorem branchmark_fwd {S R : STy} {K : Kind} {σ : RTy} {core : List Int} {tp :
         ⟨⟨c.tp0, c.tpn⟩, hvals⟩, h.cap⟩, (hj t (operand_val h0)).succ (subTy_cons (Kind.sub_refl _) hρ)⟩
       exact good_push c false [s.textpos, mark] core S (.pos :: ρ) (k :: ρ) _ _ rfl (by intro h; cases h) h.hS
         ⟨⟨ρ, k, K, R, rfl, hS, hρ, rfl, hkm, hv⟩, rfl⟩ h.good
+            (by have := sub_len h.sub; simp only [List.length_cons] at this ⊢ <;> omega)
   · refine ⟨ρ, ⟨-(s.codepos : Int) :: ([mark] ++ core), tp, by simp [pushNeg1, h.tr], ?_, hvals, h.cap⟩, hn.succ hρ⟩
     exact good_push c true [mark] core S ρ (k :: ρ) _ _ rfl (by intro _ h; cases h) h.hS
-      ⟨⟨k, rfl, hkm, hv⟩, rfl⟩ h.good
+      ⟨⟨k, rfl, hkm, hv⟩, rfl⟩ h.good (by have := sub_len h.sub; simp only [List.length_cons] at this ⊢ <;> omega)
 
 theorem lazybranchmark_fwd {S R : STy} {K : Kind} {σ : RTy} {core : List Int} {tp : Int} (c : Ctx p bs env s w o)
     (ho : o = .lazybranchmark) (h : FwdH p bs env a s S σ core tp) (hS : S = K :: R)
@@ -550,13 +556,15 @@ theorem lazybranchmark_fwd {S R : STy} {K : Kind} {σ : RTy} {core : List Int} {
     · refine ⟨ρ, ⟨(s.codepos : Int) :: ([s.textpos, old] ++ core), tp, by simp [push2, h.tr], ?_, hvals, h.cap⟩, hn.succ hρ⟩
       exact good_push c false [s.textpos, old] core S ρ (k :: ρ) _ _ rfl (by intro h; cases h) h.hS
         ⟨⟨k, K, R, hS, hρ, c.tp0, c.tpn, rfl, hkm, hv⟩, rfl⟩ h.good
+            (by have := sub_len h.sub; simp only [List.length_cons] at this ⊢ <;> omega)
     · refine ⟨ρ, ⟨(s.codepos : Int) :: ([s.textpos, s.textpos] ++ core), tp, by simp [push2, h.tr], ?_, hvals, h.cap⟩,
         hn.succ hρ⟩
       exact good_push c false [s.textpos, s.textpos] core S ρ (k :: ρ) _ _ rfl (by intro h; cases h) h.hS
         ⟨⟨k, K, R, hS, hρ, c.tp0, c.tpn, rfl, hkm, valOk_isMark hkm c.tp0 c.tpn⟩, rfl⟩ h.good
+            (by have := sub_len h.sub; simp only [List.length_cons] at this ⊢ <;> omega)
   · refine ⟨ρ, ⟨-(s.codepos : Int) :: ([0, old] ++ core), tp, by simp [pushNeg2, h.tr], ?_, hvals, h.cap⟩, hn.succ hρ⟩
     exact good_push c true [0, old] core S ρ (k :: ρ) _ _ rfl (by intro _ h; cases h) h.hS
-      ⟨⟨k, hkm, hv, by simp⟩, rfl⟩ h.good
+      ⟨⟨k, hkm, hv, by simp⟩, rfl⟩ h.good (by have := sub_len h.sub; simp only [List.length_cons] at this ⊢ <;> omega)
 
 /-- the current stack type begins with a counter over a mark -/
 theorem fwd_top2 {S : STy} {σ : RTy} {core : List Int} {tp : Int} {K : Kind} {R : STy}
@@ -584,13 +592,14 @@ theorem branchcount_fwd {S R : STy} {K : Kind} {σ : RTy} {core : List Int} {tp 
   split
   · refine ⟨ρ, ⟨-(s.codepos : Int) :: ([cnt, mark] ++ core), tp, by simp [pushNeg2, h.tr], ?_, hvals, h.cap⟩, hn.succ hρ⟩
     exact good_push c true [cnt, mark] core S ρ (.count :: k :: ρ) _ _ rfl (by intro _ h; cases h) h.hS
-      ⟨⟨k, rfl, hkm, hv⟩, rfl⟩ h.good
+      ⟨⟨k, rfl, hkm, hv⟩, rfl⟩ h.good (by have := sub_len h.sub; simp only [List.length_cons] at this ⊢ <;> omega)
   · refine eff_bind (P := TBodyOk p bs env.len a s.codepos) (operand_nodisc _ _ _) (fun _ h => h) (fun t ht => ?_)
     refine Or.inl ⟨.count :: .pos :: ρ, ⟨(s.codepos : Int) :: ([mark] ++ core), tp, by simp [spush2, push1, h.tr], ?_,
       ⟨trivial, ⟨c.tp0, c.tpn⟩, hvals⟩, h.cap⟩,
       (hj t (operand_val ht)).succ (subTy_cons (Kind.sub_refl _) (subTy_cons (Kind.sub_refl _) hρ))⟩
     exact good_push c false [mark] core S (.count :: .pos :: ρ) (.count :: k :: ρ) _ _ rfl (by intro h; cases h) h.hS
       ⟨⟨ρ, k, K, R, rfl, hS, hρ, rfl, hkm, hv⟩, rfl⟩ h.good
+          (by have := sub_len h.sub; simp only [List.length_cons] at this ⊢ <;> omega)
 
 theorem lazybranchcount_fwd {S R : STy} {K : Kind} {σ : RTy} {core : List Int} {tp : Int} (c : Ctx p bs env s w o)
     (ho : o = .lazybranchcount) (h : FwdH p bs env a s S σ core tp) (hS : S = .count :: K :: R)
@@ -612,9 +621,11 @@ theorem lazybranchcount_fwd {S R : STy} {K : Kind} {σ : RTy} {core : List Int} 
         (hj t (operand_val h0)).succ (subTy_cons (Kind.sub_refl _) (subTy_cons (Kind.sub_refl _) hρ))⟩
       exact good_push c true [mark] core S (.count :: .pos :: ρ) (.count :: k :: ρ) _ _ rfl (by intro _ h; cases h) h.hS
         ⟨⟨ρ, k, rfl, rfl, hkm, hv⟩, rfl⟩ h.good
+            (by have := sub_len h.sub; simp only [List.length_cons] at this ⊢ <;> omega)
   · refine ⟨ρ, ⟨(s.codepos : Int) :: ([s.textpos, cnt, mark] ++ core), tp, by simp [push3, h.tr], ?_, hvals, h.cap⟩, hn.succ hρ⟩
     exact good_push c false [s.textpos, cnt, mark] core S ρ (.count :: k :: ρ) _ _ rfl (by intro h; cases h) h.hS
       ⟨⟨k, K, R, hS, hρ, c.tp0, c.tpn, rfl, hkm, hv⟩, rfl⟩ h.good
+          (by have := sub_len h.sub; simp only [List.length_cons] at this ⊢ <;> omega)
 
 /-- the current stack begins with the pair pushed by a `Setjump` -/
 theorem fwd_pair {S R : STy} {σ : RTy} {core : List Int} {tp : Int}
@@ -659,6 +670,7 @@ theorem forejump_fwd {S R : STy} {σ : RTy} {core : List Int} {tp : Int} (c : Ct
   simp only [Except.map]
   refine ⟨ρ, ⟨(s.codepos : Int) :: ([x] ++ tr'), tp, by simp [push1], ?_, hvals, h.cap⟩, hn.succ hρ⟩
   exact good_push c false [x] tr' S ρ ρ _ x rfl (by intro h; cases h) h.hS ⟨rfl, rfl, hx0, hxl⟩ hg
+      (by have := sub_len h.sub; simp only [List.length_cons] at this ⊢ <;> omega)
 
 theorem updatebumpalong_fwd {S : STy} {σ : RTy} {core : List Int} {tp : Int}
     (h : FwdH p bs env a s S σ core tp) (hn : NextOk a (s.codepos + 1) S) :
@@ -710,6 +722,7 @@ theorem capturemark_fwd {S R : STy} {σ : RTy} {core : List Int} {tp : Int} (c :
     have hp := capK_pos p s.codepos
     exact good_push c false [v] core S ρ (.pos :: ρ) _ (crawlLen s) rfl (by intro h; cases h) h.hS
       ⟨⟨.pos, rfl, rfl, hv⟩, by omega, by unfold crawlLen; omega⟩ h.good
+          (by have := sub_len h.sub; simp only [List.length_cons] at this ⊢ <;> omega)
   simp only
   by_cases hc1 : c1 = -1
   · subst hc1
@@ -822,6 +835,7 @@ theorem neutral_back {S : STy} {d core : List Int} {tp : Int} {τ τ' : RTy} {cl
           by rw [hcap]; exact b.cap⟩
         rw [hcl]
         refine good_push c false [x, y] core S τ' τ' _ _ ?_ (by intro h; cases h) b.hS ?_ b.good
+            (by have := sub_len hsub; omega)
         · rcases ho with rfl | rfl | rfl | rfl | rfl | rfl <;> rfl
         · rcases ho with rfl | rfl | rfl | rfl | rfl | rfl <;> exact ⟨hsub, rfl, rfl⟩
     rcases hex with rfl | rfl
@@ -967,6 +981,7 @@ theorem branchmark_back {S : STy} {d core : List Int} {tp : Int} {τ τ' : RTy} 
   simp only [List.cons_append, List.nil_append]
   refine ⟨r, ⟨-(s.codepos : Int) :: ([mark] ++ core), tp, by simp [pushNeg1, textto], ?_, hvals, b.cap⟩, (hn K R hS).succ hr⟩
   exact good_push c true [mark] core S r (k :: r) _ _ rfl (by intro _ h; cases h) b.hS ⟨⟨k, rfl, hk, hv⟩, rfl⟩ b.good
+      (by have := sub_len hr; rw [hS]; simp only [List.length_cons]; omega)
 
 theorem lazybranchmark_back {S : STy} {d core : List Int} {tp : Int} {τ τ' : RTy} {cl' : Int} (c : Ctx p bs env s w o)
     (ho : o = .lazybranchmark) (b : BackH p bs env a s o false S d core tp τ τ' cl')
@@ -986,7 +1001,7 @@ theorem lazybranchmark_back {S : STy} {d core : List Int} {tp : Int} {τ τ' : R
     refine Or.inl ⟨.pos :: τ, ⟨-(s.codepos : Int) :: ([1, old] ++ core), tp, by simp [pushNeg2, textto, spush], ?_,
       ⟨⟨hp0, hpn⟩, b.vals⟩, b.cap⟩, (hj K R t hS (operand_val h0)).succ (subTy_cons (Kind.sub_refl _) hr)⟩
     exact good_push c true [1, old] core S (.pos :: τ) (k :: τ) _ _ rfl (by intro _ h; cases h) b.hS
-      ⟨⟨k, hk, hv, by simp⟩, rfl⟩ b.good
+      ⟨⟨k, hk, hv, by simp⟩, rfl⟩ b.good (by have := sub_len hr; rw [hS]; simp only [List.length_cons]; omega)
 
 theorem lazybranchmark_back2 {S : STy} {d core : List Int} {tp : Int} {τ τ' : RTy} {cl' : Int}
     (ho : o = .lazybranchmark) (b : BackH p bs env a s o true S d core tp τ τ' cl') :
@@ -1030,7 +1045,7 @@ theorem branchcount_back {S : STy} {d core : List Int} {tp : Int} {τ τ' : RTy}
     refine ⟨r, ⟨-(s.codepos : Int) :: ([cnt - 1, pmark] ++ core), tp, by simp [pushNeg2, textto], ?_, hvals, b.cap⟩,
       (hn K R hS).succ hr⟩
     exact good_push c true [cnt - 1, pmark] core S r (.count :: k :: r) _ _ rfl (by intro _ h; cases h) b.hS
-      ⟨⟨k, rfl, hk, hv⟩, rfl⟩ b.good
+      ⟨⟨k, rfl, hk, hv⟩, rfl⟩ b.good (by have := sub_len hr; rw [hS]; simp only [List.length_cons]; omega)
   · exact ⟨.count :: k :: r, core, tp, rfl, b.good, ⟨trivial, hv, hvals⟩, b.cap⟩
 
 theorem branchcount_back2 {S : STy} {d core : List Int} {tp : Int} {τ τ' : RTy} {cl' : Int}
@@ -1064,7 +1079,7 @@ theorem lazybranchcount_back {S : STy} {d core : List Int} {tp : Int} {τ τ' : 
       by simp [pushNeg1, spush2, textto], ?_, ⟨trivial, ⟨hp0, hpn⟩, b.vals⟩, b.cap⟩,
       (hj K R t hS (operand_val ht)).succ (subTy_cons (Kind.sub_refl _) (subTy_cons (Kind.sub_refl _) hr))⟩
     exact good_push c true [mark] core S (.count :: .pos :: τ) (.count :: k :: τ) _ _ rfl (by intro _ h; cases h) b.hS
-      ⟨⟨τ, k, rfl, rfl, hk, hv⟩, rfl⟩ b.good
+      ⟨⟨τ, k, rfl, rfl, hk, hv⟩, rfl⟩ b.good (by have := sub_len hr; rw [hS]; simp only [List.length_cons]; omega)
   · exact ⟨.count :: k :: τ, core, tp, rfl, b.good, ⟨trivial, hv, b.vals⟩, b.cap⟩
 
 theorem lazybranchcount_back2 {S : STy} {d core : List Int} {tp : Int} {τ τ' : RTy} {cl' : Int}
